@@ -86,7 +86,7 @@ def xml_docs():
 
 
 def _warm(strat):
-    return st.tuples(strat, st.booleans(), st.sampled_from([None, None, 'json', 'yaml', 'plist', 'plist', 'xml', 'csv'])).map(
+    return st.tuples(strat, st.booleans(), st.sampled_from([None, 'json', 'yaml', 'plist', 'plist', 'xml', 'csv'])).map(
         lambda t: dict(t[0], warm=t[1], **({'reuse': t[2]} if t[2] and t[2] != t[0]['fmt'] else {})))
 
 
